@@ -189,8 +189,8 @@ func (cj *CookieJar) dumpCookiesToReq(req *fasthttp.Request) {
 	}
 }
 
-// parseCookiesFromResp parses the cookies from the response and stores them for the specified host and path.
-func (cj *CookieJar) parseCookiesFromResp(host, path []byte, resp *fasthttp.Response) {
+// parseCookiesFromResp parses the cookies from the response and stores them for the specified host.
+func (cj *CookieJar) parseCookiesFromResp(host, _ []byte, resp *fasthttp.Response) {
 	hostStr := utils.UnsafeString(host)
 
 	cj.mu.Lock()
@@ -207,18 +207,36 @@ func (cj *CookieJar) parseCookiesFromResp(host, path []byte, resp *fasthttp.Resp
 	}
 
 	now := time.Now()
-	resp.Header.VisitAllCookie(func(key, value []byte) {
-		created := false
-		c := searchCookieByKeyAndPath(key, path, cookies)
-		if c == nil {
-			c, created = fasthttp.AcquireCookie(), true
+	resp.Header.VisitAllCookie(func(_, value []byte) {
+		c := fasthttp.AcquireCookie()
+		_ = c.ParseBytes(value) //nolint:errcheck // ignore error
+
+		// A cookie is identified by its own name and Path attribute.
+		idx := -1
+		for i, old := range cookies {
+			if bytes.Equal(old.Key(), c.Key()) && sameCookiePath(old.Path(), c.Path()) {
+				idx = i
+				break
+			}
 		}
 
-		_ = c.ParseBytes(value) //nolint:errcheck // ignore error
-		if c.Expire().Equal(fasthttp.CookieExpireUnlimited) || c.Expire().After(now) {
-			cookies = append(cookies, c)
-		} else if created {
+		expired := !c.Expire().Equal(fasthttp.CookieExpireUnlimited) && !c.Expire().After(now)
+		switch {
+		case expired && idx >= 0:
+			// The server expired a stored cookie: remove it.
+			fasthttp.ReleaseCookie(cookies[idx])
+			copy(cookies[idx:], cookies[idx+1:])
+			cookies[len(cookies)-1] = nil
+			cookies = cookies[:len(cookies)-1]
 			fasthttp.ReleaseCookie(c)
+		case expired:
+			fasthttp.ReleaseCookie(c)
+		case idx >= 0:
+			// Replace the stored cookie, keeping its position.
+			fasthttp.ReleaseCookie(cookies[idx])
+			cookies[idx] = c
+		default:
+			cookies = append(cookies, c)
 		}
 	})
 	cj.hostCookies[hostStr] = cookies
@@ -235,6 +253,15 @@ func (cj *CookieJar) Release() {
 	//	  }
 	// }
 	cj.hostCookies = nil
+}
+
+// sameCookiePath reports whether two cookie Path attributes denote the same path.
+// A missing path is the root path.
+func sameCookiePath(a, b []byte) bool {
+	if len(a) <= 1 && len(b) <= 1 {
+		return true
+	}
+	return bytes.Equal(a, b)
 }
 
 // searchCookieByKeyAndPath looks up a cookie by its key and path from the provided slice of cookies.
